@@ -1570,3 +1570,15 @@ Proof.
   - rewrite filter_all_reg by exact E. reflexivity.
   - rewrite <- (reduced_gen objs H 0). reflexivity.
 Qed.
+
+(* ------------------------------------------------------------------ the symmetry hypothesis is needed *)
+(* without symmetry of the neighbour lists the constant scheme is neither symmetric nor positive semi-definite *)
+Lemma constant_asymmetric_refuted :
+  exists (nb : list (list nat)) (x : list R), nb_in_range (length nb) nb = true /\ length x = length nb
+    /\ @mget ROps (@constant_matrix ROps (/100) 1 nb) 1 0 <> @mget ROps (@constant_matrix ROps (/100) 1 nb) 0 1
+    /\ @quad ROps (@constant_matrix ROps (/100) 1 nb) x < 0.
+Proof.
+  exists [[]; [0%nat]], [1; /2]. split; [reflexivity|]. split; [reflexivity|]. split.
+  - vm_compute. lra.
+  - vm_compute. lra.
+Qed.
